@@ -87,10 +87,12 @@ def store_attr_h5data(obj: Any, group: Group) -> None:
         elif isinstance(value, bytes):
             value = value.decode()
         elif isinstance(value, Mapping) and not isinstance(value, DesignSpace):
-            grname = f"/{name}"
-            if grname in group:
-                del group[grname]
-            new_group = group.require_group(grname)
+            # The mapping is stored in a group next to the group of the object,
+            # i.e. in the node of the object and not at the root of the file.
+            parent_group = group.parent
+            if name in parent_group:
+                del parent_group[name]
+            new_group = parent_group.require_group(name)
             store_attr_h5data(value, new_group)
             continue
         elif hasattr(value, "__iter__") and not (
